@@ -180,6 +180,7 @@ pub open spec fn evicts(w: &World, k: int) -> int { if reg_live(w, w.registry, k
 pub open spec fn reg_live(w: &World, rg: Map<int, AnyVal>, k: int) -> bool { rg.dom().contains(k) && !w.slots[rg[k].slot].resolved }
 // rule M4: `format!(..)` (error messages): some string
 #[verifier::external_body] pub fn hx_format() -> (r: String) { unimplemented!() }
+#[verifier::external_body] pub fn hx_log_enabled() -> (r: bool) { unimplemented!() }   // log::log_enabled!(..): some bool
 // std functions vstd has no specification for (their documented behaviour, assumed):
 pub assume_specification<T>[Option::<T>::replace](o: &mut Option<T>, v: T) -> (r: Option<T>)
     ensures r == *old(o), *final(o) == Some(v);
